@@ -107,7 +107,14 @@ def make_plane(lentil, act, arg):
             TILTS[0] += 1
             return lentil.Tilt(x=0.1, y=-0.1) if TILTS[0] % 2 else lentil.Tilt(x=40.0, y=-55.0)
         if arg in ('DispersiveTilt', 'Grism'):
-            return getattr(lentil, arg)(trace=[1.0, 0.0], dispersion=[1.0, 1.0])
+            TILTS[0] += 1
+            el = getattr(lentil, arg)(trace=[1.0, 0.0], dispersion=[1.0, 1.0])
+            # the polynomials are plain attributes: every third element gets them assigned after construction, as a tuple or a list
+            if TILTS[0] % 3 == 1:
+                el.trace, el.dispersion = (1.0, 0.0), (1.0, 1.0)
+            elif TILTS[0] % 3 == 2:
+                el.trace, el.dispersion = [1.0, 0.0], [1.0, 1.0]
+            return el
         if arg == 'Rotate':
             return lentil.Rotate(angle=90)
         if arg == 'Flip':
@@ -153,10 +160,12 @@ def run_program(lentil, prog):
                 elif (salt + i) % 3 == 1:
                     w = pickle.loads(pickle.dumps(w))            # as when handed to a worker process
                 before = (digest_obj(w),)
+                # the oversampling factor 1 in the forms a caller may hold it in (documented as a float)
+                os_ = (1, 1.0, np.float32(1), np.int64(1), np.asarray(1.0), np.float16(1), np.uint8(1))[(salt + i) % 7]
                 if arg == 'dft':
-                    r = lentil.propagate_dft(w, pixelscale=1.0, shape=N, oversample=1)
+                    r = lentil.propagate_dft(w, pixelscale=1.0, shape=N, oversample=os_)
                 else:
-                    r = lentil.propagate_fft(w, pixelscale=1.0, shape=N, oversample=1)
+                    r = lentil.propagate_fft(w, pixelscale=1.0, shape=N, oversample=os_)
             else:
                 if (salt + i) % 3 == 0:
                     # a wavefront that is EQUAL to w but shares no object with it (type objects included)
